@@ -383,11 +383,27 @@ impl PackageBuilder {
             desc: "no parent directory found",
         })?;
 
+        // destinations such as "./", "/.." or "/usr/.." have no file name
+        let base_name = pb
+            .file_name()
+            .ok_or_else(|| Error::InvalidDestinationPath {
+                path: dest.clone(),
+                desc: "no file name found",
+            })?
+            .to_string_lossy()
+            .to_string();
+
         let (cpio_path, mut dir) = if dest.starts_with('.') {
+            let relative_parent =
+                parent
+                    .strip_prefix(".")
+                    .map_err(|_| Error::InvalidDestinationPath {
+                        path: dest.clone(),
+                        desc: "no parent directory found",
+                    })?;
             (
                 dest.to_string(),
-                // strip_prefix() should never fail because we've checked the special cases already
-                format!("/{}", parent.strip_prefix(".").unwrap().to_string_lossy()),
+                format!("/{}", relative_parent.to_string_lossy()),
             )
         } else {
             (format!(".{}", dest), parent.to_string_lossy().to_string())
@@ -402,8 +418,7 @@ impl PackageBuilder {
         let hash_result = hasher.finalize();
         let sha_checksum = hex::encode(hash_result); // encode as string
         let entry = PackageFileEntry {
-            // file_name() should never fail because we've checked the special cases already
-            base_name: pb.file_name().unwrap().to_string_lossy().to_string(),
+            base_name,
             size: content.len() as u64,
             content,
             flags: options.flag,
